@@ -75,10 +75,6 @@ Definition s_initable (ds : list (nat * decl)) (f : nat) : list nat :=
   match decl_of ds f with Some d => s_acc (io_inits (d_io d)) ds f | None => [] end.
 Definition s_required (ds : list (nat * decl)) (f : nat) : list nat :=
   match decl_of ds f with Some d => io_reqs (d_io d) | None => [] end.
-(* the code's rule on the specification's tables: variables, defaults and keywords by precedence, but
-   inittable-ness and required keywords only from the instantiated flavor's own declaration *)
-Definition s_make_code (ds : list (nat * decl)) (f : nat) (args : list (nat * Z)) :=
-  init_gen (fun k => initable_of (s_initable ds f) k && isSome (s_var ds f k)) (fun k => isSome (s_key ds f k)) (s_required ds f) args.
 (* the property's rule: init keywords are inherited.  A variable is inittable in f when a flavor of prec f that has
    the option lists it (when no flavor of prec f has the option: every variable, slip's default); the required
    keywords are those of every flavor of prec f. *)
@@ -89,8 +85,16 @@ Definition s_initable_inh (ds : list (nat * decl)) (f k : nat) : bool :=
 Definition s_required_inh (ds : list (nat * decl)) (f : nat) : list nat := nub (flat_map (s_required ds) (prec ds f)).
 Definition s_make (ds : list (nat * decl)) (f : nat) (args : list (nat * Z)) :=
   init_gen (fun k => s_initable_inh ds f k && isSome (s_var ds f k)) (fun k => isSome (s_key ds f k)) (s_required_inh ds f) args.
-(* guard: where the own-only rule of the code gives what inheritance demands (known findings
-   C11-initable-not-inherited, C11-required-keywords-not-inherited) *)
+(* the code's rule (as repaired by repo_fixes/C11-4 and C11-5) on the specification's tables: variables, defaults,
+   keywords, the inittable set and the required keywords by precedence.  The inittable set is the union of the sets
+   of the flavors of prec f; an EMPTY union means "every variable" to the code (len(cf.initable) == 0), whether or
+   not some flavor had the option: that is the one place left where it can differ from s_make (a bare
+   :inittable-instance-variables on flavors without variables). *)
+Definition s_initable_all (ds : list (nat * decl)) (f : nat) : list nat := flat_map (s_initable ds) (prec ds f).
+Definition s_make_code (ds : list (nat * decl)) (f : nat) (args : list (nat * Z)) :=
+  init_gen (fun k => initable_of (s_initable_all ds f) k && isSome (s_var ds f k)) (fun k => isSome (s_key ds f k)) (s_required_inh ds f) args.
+(* guard: where the code's rule gives what the property's rule demands (always, unless some flavor of prec f has
+   the :inittable-instance-variables option and no flavor of prec f lists a variable: g_init_inherited) *)
 Definition init_res_eqb (a b : option (list (nat * Z) * list (nat * Z))) : bool :=
   let kz_eqb (x y : nat * Z) := (fst x =? fst y) && Z.eqb (snd x) (snd y) in
   let fix leq (l r : list (nat * Z)) := match l, r with [], [] => true | x :: l', y :: r' => kz_eqb x y && leq l' r' | _, _ => false end in
